@@ -271,8 +271,8 @@ Lemma run_edit_ok_opens_blocks c nf sl b b' es : rewrites c nf -> read_archive b
   forall s, In (RSolid s) es -> exists inner, expand s = Ok inner.
 Proof.
   unfold rewrites, run_edit. intros -> RA. change (read_all b) with (read_archive b). rewrite RA. cbn [bind].
-  destruct (edit_archive hdr_tok content_tok expand rebuild keep pwb c sl es) as [es'| |] eqn:EA; cbn [bind]; try discriminate.
-  intros _. exact (edit_ok_opens_blocks c sl es es' EA).
+  destruct (edit_archive hdr_tok content_tok expand rebuild keep pwb c (Transform.eff_sel c nf sl) es) as [es'| |] eqn:EA; cbn [bind]; try discriminate.
+  intros _. exact (edit_ok_opens_blocks c _ es es' EA).
 Qed.
 
 Lemma update_ok_opens_blocks excl cond targets news b b' es : read_archive b = Ok es ->
